@@ -450,7 +450,75 @@ def r12_7(chk):
     chk.floor("R12.7", 2, "old and new sequence-level get_translation")
 
 
+GC_FAMILY = {"get_translation", "trim_stop_codon", "trim_stop_codons", "has_terminal_stop"}
+
+
+def r12_4b(chk):
+    chk.rule("R12.4b", "inside a translation entry point every call of another entry point of the family (get_translation, trim_stop_codon(s), has_terminal_stop) is given the genetic code (gc derived from the caller's gc): a callee left on its default trims/tests stops with the standard code whatever code was requested")
+    for rel, q in ENTRY_POINTS:
+        m = chk.repo.module(rel)
+        fn = m.func(q)
+        if "gc" not in params_of(fn) and not q.endswith("main"):
+            continue
+        from ..defuse import derived_names, expr_derives
+
+        gcn = derived_names(fn, {"gc"})
+        for c in walk_no_nested(fn):
+            if isinstance(c, ast.Call) and isinstance(c.func, ast.Attribute) and c.func.attr in GC_FAMILY:
+                passed = [kw.value for kw in c.keywords if kw.arg == "gc"] + (c.args[:1] if c.func.attr == "get_translation" or c.args else [])
+                ok = any(expr_derives(a, gcn) for a in passed)
+                chk.decide(ok, "R12.4b", key(m, q, f"gc passed to {norm(c.func)}"), m.loc(c), f"{norm(c.func)}(... gc ...)", f"`{norm(c)[:90]}` is not given the genetic code: it falls back to its default code, so with a non-standard code a terminal stop is trimmed/tested against the wrong table")
+    chk.floor("R12.4b", 6, "family calls inside the entry points")
+
+
+def r12_8(chk):
+    chk.rule("R12.8", "every complement implementation derives its result from the complement table (a lookup through the table-built converter / str.translate, or recursion into another overload); a computed shortcut (index arithmetic) is not tied to the tables and silently diverges for symbols outside its assumption (gap, ambiguity codes)")
+    n = 0
+    for rel in ("core/new_moltype.py", "core/moltype.py"):
+        m = chk.repo.module(rel)
+        ci = m.cls("MolType")
+        fns = [st for st in ci.node.body if isinstance(st, ast.FunctionDef) and (st.name == "complement" or (st.name == "_" and any("complement.register" in norm(d) for d in st.decorator_list)))]
+        if not fns:
+            raise AnalysisError(f"{rel}: MolType.complement not found")
+        for fn in fns:
+            ann = fn.args.args[1].annotation if len(fn.args.args) > 1 and fn.args.args[1].annotation is not None else None
+            name = f"complement[{norm(ann)}]" if ann is not None else "complement"
+            rets = [r for r in walk_no_nested(fn) if isinstance(r, ast.Return) and r.value is not None]
+            if not rets:
+                continue  # the dispatch stub raises
+            for r in rets:
+                n += 1
+                calls = [norm(c.func) for c in ast.walk(r.value) if isinstance(c, ast.Call)]
+                via_table = any(cf in ("self._complement", "self.complement") or cf.endswith(".translate") for cf in calls)
+                chk.decide(via_table, "R12.8", key(m, f"MolType.{name}", f"return {norm(r.value)[:70]}"), m.loc(r), "result comes from the complement table", f"`return {norm(r.value)[:100]}` does not go through the complement table: symbols the shortcut does not expect (gap, ambiguity codes) are complemented wrongly and the str/bytes/array forms disagree")
+    chk.floor("R12.8", 4, "3 new overloads + old complement")
+
+
+def r12_9(chk):
+    chk.rule("R12.9", "index arrays are typed by the size of the alphabet (get_array_type(len(<alphabet>))), never by the size of the data being encoded: a dtype that grows with the sequence length changes the byte layout the table-driven converters read")
+    from ..defuse import derived_names, expr_derives
+
+    n = 0
+    for mod in chk.repo.all_modules():
+        if "get_array_type(" not in mod.source:
+            continue
+        for q, fn in mod.all_functions():
+            if fn.name == "get_array_type":
+                continue
+            data = derived_names(fn, {p for p in params_of(fn) if p in ("seq", "data", "seqs", "dna", "sequence")})
+            for c in walk_no_nested(fn):
+                if isinstance(c, ast.Call) and (call_name(c) or "").split(".")[-1] == "get_array_type" and c.args:
+                    n += 1
+                    a = c.args[0]
+                    bad = expr_derives(a, data)
+                    chk.decide(not bad, "R12.9", key(mod, q, f"get_array_type({norm(a)})"), mod.loc(c), f"sized by `{norm(a)}` (an alphabet)", f"`get_array_type({norm(a)})` is sized by the data being encoded: for 256 or more elements the indices become 16-bit and the uint8 table converters (codon -> amino acid) read them two bytes at a time")
+    chk.floor("R12.9", 5, "6 call sites on the pinned tree")
+
+
 def run(chk):
+    r12_9(chk)
+    r12_4b(chk)
+    r12_8(chk)
     r12_1(chk)
     r12_2(chk)
     r12_3(chk)
